@@ -35,6 +35,11 @@ def install_evaluator_contracts(it, faults=True, log=None):
             if log is not None:
                 log.append((kind, x))
             it_.path.ghost.setdefault("__evals__", []).append((kind, x))
+            m0 = it_.getattr(self_, "num_cons") if "num_cons" in self_.fields else self_.fields["problem"].fields["num_cons"]
+            if kind in ("cons", "cons_jac") and it_.truth(m0 == 0):
+                # no constraints: the evaluator returns an empty value without calling the problem (cannot fault)
+                n0 = it_.getattr(self_, "num_vars") if "num_vars" in self_.fields else self_.fields["problem"].fields["__n__"]
+                return _fresh_vec(it_, "c", 0) if kind == "cons" else Mat(0, n0, None, name=it_.path.fresh_name("J"))
             if faults and it_.path.choose(f"{kind} raises EvalError"):
                 raise PyRaise(eval_error(it_, x), origin=f"evaluator.{kind}")
             n = it_.getattr(self_, "num_vars") if "num_vars" in self_.fields else self_.fields["problem"].fields["__n__"]
